@@ -7,7 +7,7 @@ props = {json.loads(l)["id"]: json.loads(l) for l in open(os.path.join(VERIF, "p
 CHECKS = {
  "C18": dict(cat="exploration", technique="stateful model-based property testing: transactions valid by construction or with exactly one known mutation, differential cycle count against ckb-script run on the harness's own resolution, insertion-ordered pool model capped at 64, announcement history invariant",
    text="Histories of send_transaction / estimate_cycles (valid or singly mutated transactions over indexed and pending cells, bursts beyond the pool limit), get_transaction of accepted / rejected / evicted / unknown hashes, relay connects / disconnects / timers and GetRelayTransactions. Ok iff valid by construction with the expected cycles; estimate stores nothing; rejected and evicted transactions are unknown, never announced, never served; the pool follows the model; each (peer, hash) is announced at most once.",
-   note="Scripts are always-success (no witness-dependent lock is available offline without a signing toolchain), so a defect that only shows with a non-verifying witness is out of reach; see DESIGN.md.", ref="6/C18"),
+   note="Scripts: always-success plus a hand-assembled witness-gate lock (verdict depends on witnesses[0]); pool members are also re-submitted with other witnesses.", ref="6/C18"),
  "C10": dict(cat="exploration", technique="structure-aware fuzzing driven by proptest: honest answers and unsolicited honest-format messages of every union variant with fixed-size fields overwritten in place by boundary values (field offsets found by walking the molecule readers), vector-level mutations, recomputed commitments, truncations / bit flips / random bytes; panic oracle (catch_unwind, overflow checks on) around every handler call",
    text="Generated worlds (Eaglesong or Dummy PoW) are driven into a peer-state class with a chosen kind of request in flight; then 1..4 hostile inputs on the light-client, filter, sync and relay protocols, each followed by all timers, then honest traffic and a restart. No handler call may panic except the documented long-fork abort.",
    note="Fixed by this check: D27 (total difficulty overflow), D28 (BlockFilterHashes arithmetic / slices), D29 (MMR library arithmetic on hostile digests), D30 (last-n range check).", ref="6/C10"),
